@@ -175,6 +175,21 @@ func (k kase) render() string {
 		} else {
 			fmt.Fprintf(&body, "\t_ = %s %s %s\n", x, k.Ctx, y)
 		}
+	case "min", "max":
+		x := "x"
+		if untyped(k.AK) {
+			x = k.A
+		} else {
+			fmt.Fprintf(&body, "\tvar x %s\n\tuse(x)\n", k.A)
+		}
+		declY(&body)
+		if untyped(k.AK) && untyped(k.BK) {
+			fmt.Fprintf(&body, "\tconst k = %s(%s, %s)\n", k.Ctx, x, y)
+		} else {
+			fmt.Fprintf(&body, "\t_ = %s(%s, %s)\n", k.Ctx, x, y)
+		}
+	case "clear":
+		fmt.Fprintf(&body, "\tvar x %s\n\tuse(x)\n\tclear(x)\n", k.A)
 	case "if-cond":
 		declY(&body)
 		fmt.Fprintf(&body, "\tif %s {\n\t}\n", y)
@@ -446,6 +461,8 @@ func group(k kase) string {
 		return "type assertion"
 	case "arity", "undefined":
 		return k.Ctx
+	case "min", "max", "clear":
+		return "builtins min, max, clear (go1.21)"
 	}
 	return "operand of " + k.Ctx
 }
@@ -595,6 +612,11 @@ func run(c *fw.Ctx) error {
 			key := k.Ctx + "|" + k.A + "|" + k.B
 			fail := func(t, m string) {
 				dump = append(dump, fmt.Sprintf("%s\t%s\t%s\t%s", t, key, m, firstLine(o.Err+o.Panic)))
+				if k.Ctx == "min" || k.Ctx == "max" || k.Ctx == "clear" {
+					// a finding about the whole class (F-C12-21: the builtins are not implemented), not about listed cases
+					c.Fail(t, m, rep)
+					return
+				}
 				c.FailCase(t, m, key, rep)
 			}
 			switch {
